@@ -20,7 +20,7 @@ import (
 func TestRetriedAttemptsCloseTheirConnections(t *testing.T) {
 	rapid.Check(t, func(rt *rapid.T) {
 		// peer A accepts from the start and keeps every connection it was given
-		lnA, err := net.Listen("tcp", "127.0.0.1:0")
+		lnA, err := hx.Listen("tcp", "127.0.0.1:0")
 		if err != nil {
 			rt.Fatalf("listen: %v", err)
 		}
@@ -55,7 +55,7 @@ func TestRetriedAttemptsCloseTheirConnections(t *testing.T) {
 			}
 		}()
 		// peer B refuses at first and starts listening a little later (on the port reserved for it)
-		lnB0, err := net.Listen("tcp", "127.0.0.1:0")
+		lnB0, err := hx.Listen("tcp", "127.0.0.1:0")
 		if err != nil {
 			rt.Fatalf("listen: %v", err)
 		}
@@ -98,7 +98,7 @@ func TestRetriedAttemptsCloseTheirConnections(t *testing.T) {
 		if err != nil {
 			rt.Fatalf("provision: %v", err)
 		}
-		front, err := net.Listen("tcp", "127.0.0.1:0")
+		front, err := hx.Listen("tcp", "127.0.0.1:0")
 		if err != nil {
 			rt.Fatalf("listen: %v", err)
 		}
@@ -112,7 +112,7 @@ func TestRetriedAttemptsCloseTheirConnections(t *testing.T) {
 			}
 			srv.VerifHandle(c)
 		}()
-		cli, err := net.Dial("tcp", front.Addr().String())
+		cli, err := hx.Dial("tcp", front.Addr().String())
 		if err != nil {
 			rt.Fatalf("dial: %v", err)
 		}
